@@ -448,6 +448,9 @@ func mulInterval(xlo, xhi, ylo, yhi *big.Int) (*big.Int, *big.Int) {
 	if xlo == nil || xhi == nil || ylo == nil || yhi == nil {
 		return nil, nil
 	}
+	if xlo.BitLen()+ylo.BitLen() > 8192 || xhi.BitLen()+yhi.BitLen() > 8192 || xlo.BitLen()+yhi.BitLen() > 8192 || xhi.BitLen()+ylo.BitLen() > 8192 {
+		return nil, nil // intervals are an optimisation only: give up on astronomically wide ones
+	}
 	ps := []*big.Int{
 		new(big.Int).Mul(xlo, ylo), new(big.Int).Mul(xlo, yhi),
 		new(big.Int).Mul(xhi, ylo), new(big.Int).Mul(xhi, yhi),
